@@ -304,6 +304,15 @@ func (c18) Generate(r *rand.Rand, t string) []*Case {
 		}
 	}
 
+	// 1b. every std package first imported for its side effects (Anon) and then used by name:
+	// the blank import must give way to a real name (exhaustive over the packages)
+	for _, prefix := range []bool{false, true} {
+		for _, sp := range pkgs {
+			setup := append(withPrefix(prefix), hist.Op{Kind: "anon", F: 0, Strs: []string{sp.Path}})
+			out = append(out, c18Case("anon-then-qual", setup, []string{sp.Path}, "anon-then-qual", "prefix="+onoff(prefix), cfgTag(sp)))
+		}
+	}
+
 	// 2. every colliding pair of std packages, both orders
 	groups := collisionGroups()
 	var keys []string
@@ -320,6 +329,9 @@ func (c18) Generate(r *rand.Rand, t string) []*Case {
 				}
 				for _, prefix := range []bool{false, true} {
 					out = append(out, c18Case("std-pair", withPrefix(prefix), []string{a, b}, "collide="+k, "prefix="+onoff(prefix)))
+					// the same pair with one of them Anon'd first
+					setup := append(withPrefix(prefix), hist.Op{Kind: "anon", F: 0, Strs: []string{b}})
+					out = append(out, c18Case("std-pair-anon", setup, []string{a, b}, "collide="+k, "anon-then-qual", "prefix="+onoff(prefix)))
 				}
 			}
 		}
